@@ -545,6 +545,97 @@ def dataclass_field_shape(f):
 
 
 # --------------------------------------------------------------------------
+# derived complex types: restriction overrides, extension  (model: lean/XsdataModel/Gen/Derive.lean)
+#   oattr := {"name", "min", "max", "default", "fixed"}
+# --------------------------------------------------------------------------
+def build_oattr(o, name="x"):
+    from xsdata.codegen.models import Attr, AttrType, Restrictions
+    from xsdata.models.enums import DataType, Tag
+
+    return Attr(name=o.get("name", name), tag=Tag.ELEMENT, types=[AttrType(qname=str(DataType.STRING), native=True)],
+                default=o.get("default"), fixed=bool(o.get("fixed")), restrictions=Restrictions(min_occurs=o["min"], max_occurs=o["max"]))
+
+
+def export_oattr(a):
+    return {"min": a.restrictions.min_occurs, "max": a.restrictions.max_occurs, "default": a.default, "fixed": bool(a.fixed)}
+
+
+def real_override(child, parent):
+    import logging
+
+    from xsdata.codegen.handlers import ValidateAttributesOverrides
+    from xsdata.codegen.models import Class
+    from xsdata.models.enums import Tag
+
+    c, p = build_oattr(child), build_oattr(parent)
+    p.parent = "{urn:t}A"
+    target = Class(qname="{urn:t}C", tag=Tag.COMPLEX_TYPE, location="mem", attrs=[c])
+    logging.getLogger("xsdata.logger").disabled = True
+    try:
+        ValidateAttributesOverrides.validate_override(target, c, p)
+    finally:
+        logging.getLogger("xsdata.logger").disabled = False
+    return {"child": export_oattr(c) if any(x is c for x in target.attrs) else None, "parent": export_oattr(p)}
+
+
+def real_restrict_attrs(base, own):
+    """the real handler on constructed classes A and C(restriction of A) in a real container"""
+    import logging
+
+    from xsdata.codegen.container import ClassContainer
+    from xsdata.codegen.handlers import ValidateAttributesOverrides
+    from xsdata.codegen.models import AttrType, Class, Extension, Restrictions
+    from xsdata.models.config import GeneratorConfig
+    from xsdata.models.enums import Tag
+
+    a = Class(qname="{urn:t}A", tag=Tag.COMPLEX_TYPE, location="mem", attrs=[build_oattr(o) for o in base])
+    c = Class(qname="{urn:t}C", tag=Tag.COMPLEX_TYPE, location="mem", attrs=[build_oattr(o) for o in own],
+              extensions=[Extension(tag=Tag.RESTRICTION, type=AttrType(qname="{urn:t}A"), restrictions=Restrictions())])
+    container = ClassContainer(GeneratorConfig())
+    container.extend([a, c])
+    logging.getLogger("xsdata.logger").disabled = True
+    try:
+        ValidateAttributesOverrides(container).process(c)
+    finally:
+        logging.getLogger("xsdata.logger").disabled = False
+    return {"derived": [[x.name, export_oattr(x)] for x in c.attrs], "base": [[x.name, export_oattr(x)] for x in a.attrs]}
+
+
+def gen_oattr(rng, name=None):
+    mn, mx = rng.choice([(1, 1), (0, 1), (0, MAXSIZE), (1, MAXSIZE), (2, 2), (0, 0), (2, 5), (1, 1), (0, 1)])
+    d = rng.choice([None, None, "dv", "x"])
+    o = {"min": mn, "max": mx, "default": d, "fixed": d is not None and rng.random() < 0.4}
+    if name:
+        o["name"] = name
+    return o
+
+
+def derive_xsd(base, own=None, ext=None, ns="urn:t"):
+    """complexType A (a sequence of `base` elements); C = restriction of A re-declaring `own`;
+    B = extension of A by the particle `ext`; global elements ra, rc, rb"""
+
+    def el(o):
+        extra = ""
+        if o.get("default") is not None:
+            extra = f' {"fixed" if o.get("fixed") else "default"}="{_xml_attr(o["default"])}"'
+        return f'<xs:element name="{o["name"]}" type="xs:string"{occ_attrs(o["min"], o["max"])}{extra}/>'
+
+    out = f'<?xml version="1.0"?>\n<xs:schema xmlns:xs="http://www.w3.org/2001/XMLSchema" targetNamespace="{ns}" xmlns="{ns}" elementFormDefault="qualified">\n'
+    if isinstance(base, list):
+        out += ' <xs:complexType name="A"><xs:sequence>' + "".join(el(o) for o in base) + "</xs:sequence></xs:complexType>\n"
+    else:
+        body = particle_xsd(base, ns=ns).split("<xs:complexType>\n", 1)[1].rsplit("  </xs:complexType>", 1)[0]
+        out += f' <xs:complexType name="A">\n{body} </xs:complexType>\n'
+    out += ' <xs:element name="ra" type="A"/>\n'
+    if own is not None:
+        out += ' <xs:complexType name="C"><xs:complexContent><xs:restriction base="A"><xs:sequence>' + "".join(el(o) for o in own) + "</xs:sequence></xs:restriction></xs:complexContent></xs:complexType>\n <xs:element name=\"rc\" type=\"C\"/>\n"
+    if ext is not None:
+        body = particle_xsd(ext, ns=ns).split("<xs:complexType>\n", 1)[1].rsplit("  </xs:complexType>", 1)[0]
+        out += f' <xs:complexType name="B"><xs:complexContent><xs:extension base="A">\n{body}</xs:extension></xs:complexContent></xs:complexType>\n <xs:element name="rb" type="B"/>\n'
+    return out + "</xs:schema>\n"
+
+
+# --------------------------------------------------------------------------
 # real sites
 # --------------------------------------------------------------------------
 def renumber(sites):
